@@ -346,6 +346,35 @@ def heldRun (c : STCfg) (ev : Ev) : Run := ⟨ev.ctx, dictUpdate (baseArgs ev) c
 
 end New
 
+/-! ## `kwargs=None` spelled out (the documented default value)
+
+`qs` = for the delivered watched changes of one decorator, in order: does the change qualify (expression true)? -/
+
+namespace Legacy
+
+/-- legacy: `self.state_trigger_kwargs.get("kwargs", {})` yields `None` (the key exists), and for the first qualifying
+change `func_args.update(user_kwargs)` raises `TypeError` inside `trigger_watch`; its `except Exception` handler
+unsubscribes the queue and the trigger task ends – before `call_action`.  So: no run ever starts, and the expression
+is evaluated up to and including the first qualifying change only. -/
+def kwNoneRuns (_qs : List Bool) : List Nat := []
+
+def kwNoneEvals : List Bool → Nat
+  | [] => 0
+  | true :: _ => 1
+  | false :: qs => 1 + kwNoneEvals qs
+
+end Legacy
+
+namespace New
+
+/-- new subsystem: the kwargs schema `vol.Coerce(dict[str, Any])` rejects `None` when the decorator is validated
+(`TypeError: … keyword 'kwargs' should be type dict`): the function gets no trigger at all -/
+def kwNoneRuns (_qs : List Bool) : List Nat := []
+
+def kwNoneEvals (_qs : List Bool) : Nat := 0
+
+end New
+
 /-! ## the transition system -/
 
 inductive Step where
